@@ -13,8 +13,9 @@ Theorem C13_levels_sorted : forall l,
   StronglySorted str_lt (sort_levels false l) /\ forall x, In x (sort_levels false l) <-> In x l.
 Proof. exact sort_levels_str_spec. Qed.
 
-(* levels= (or the declared categories of an ordered column) is accepted exactly when it has the same SET of
-   values as the data, and is then kept in the given order *)
+(* levels= (or the declared categories of an ordered column) is accepted BY THE BOX exactly when it has the same
+   SET of values as the data, and is then kept in the given order (a repeated entry is refused later, when the
+   component is coded: C13_duplicate_levels_refused, C13_call_with_levels) *)
 Theorem C13_levels_validation : forall num o d c lv,
   (levels_valid (box_levels o lv) d -> mk_box num o d c lv = Ok (PBox num d c (box_levels o lv))) /\
   (~ levels_valid (box_levels o lv) d -> mk_box num o d c lv = Err EValue).
@@ -37,7 +38,8 @@ Theorem C13_defaults_follow_levels : forall num o d l,
   left_out (Sum None) (call_levels num o d (Some l)) = last l ""%string.
 Proof. exact levels_set_defaults. Qed.
 
-(* end to end: f(x, a, levels=lv) for f among C, T, S *)
+(* end to end: f(x, a, levels=lv) for f among C, T, S; accepted iff lv is, as a set, the values present, does
+   not repeat an entry, and the option names a level (when consulted); every refusal is a ValueError *)
 Theorem C13_call_with_levels : forall cx data resp f xn col a lvn l va enc num o d spans nrows,
   In f ["C"; "T"; "S"]%string -> stateless a = true ->
   let E := ECtx data (d_extra cx) (d_sqrt cx) true in
@@ -47,15 +49,14 @@ Theorem C13_call_with_levels : forall cx data resp f xn col a lvn l va enc num o
   let lz := LzCall f [LzVar xn; a] [("levels"%string, LzVar lvn)] in
   let run := do t <- set_type_comp cx data resp (CCall lz); set_data_comp t spans nrows in
   let e := box_comp_encoding enc in
-  (levels_valid (Some l) d -> option_ok e spans l ->
+  (levels_valid (Some l) d -> NoDup l -> option_ok e spans l ->
    exists dc cm,
      run = Ok dc /\ tc_value (dc_t dc) = PBox num d enc (Some l) /\
      dc_levels dc = l /\ dc_contrast dc = Some cm /\ code e spans l = Ok cm /\
-     (NoDup l ->
-      clabels cm = contrast_labels e spans l /\
-      dc_labels dc = Some (map (fun s => (lazy_str lz ++ "[" ++ s ++ "]")%string) (contrast_labels e spans l)) /\
-      (entries_premise e spans l -> dc_rows dc = map (ocoded_row e spans l) d))) /\
-  (~ (levels_valid (Some l) d /\ option_ok e spans l) -> run = Err EValue).
+     clabels cm = contrast_labels e spans l /\
+     dc_labels dc = Some (map (fun s => (lazy_str lz ++ "[" ++ s ++ "]")%string) (contrast_labels e spans l)) /\
+     (entries_premise e spans l -> dc_rows dc = map (ocoded_row e spans l) d)) /\
+  (~ (levels_valid (Some l) d /\ NoDup l /\ option_ok e spans l) -> run = Err EValue).
 Proof. exact CTS_levels_design. Qed.
 
 (* ... and without levels=: declared categories of an ordered column, else the sorted values *)
@@ -68,22 +69,64 @@ Theorem C13_call_without_levels : forall cx data resp f xn col a va enc num o d 
   let run := do t <- set_type_comp cx data resp (CCall lz); set_data_comp t spans nrows in
   let e := box_comp_encoding enc in
   let lvs := match o with Some cats => cats | None => sort_levels num (present d) end in
-  (levels_valid o d -> option_ok e spans lvs ->
+  (levels_valid o d -> NoDup lvs -> option_ok e spans lvs ->
    exists dc cm,
      run = Ok dc /\ tc_value (dc_t dc) = PBox num d enc o /\
      dc_levels dc = lvs /\ dc_contrast dc = Some cm /\ code e spans lvs = Ok cm /\
-     (NoDup lvs ->
-      clabels cm = contrast_labels e spans lvs /\
-      dc_labels dc = Some (map (fun s => (lazy_str lz ++ "[" ++ s ++ "]")%string) (contrast_labels e spans lvs)) /\
-      (entries_premise e spans lvs -> dc_rows dc = map (ocoded_row e spans lvs) d))) /\
-  (~ (levels_valid o d /\ option_ok e spans lvs) -> run = Err EValue).
+     clabels cm = contrast_labels e spans lvs /\
+     dc_labels dc = Some (map (fun s => (lazy_str lz ++ "[" ++ s ++ "]")%string) (contrast_labels e spans lvs)) /\
+     (entries_premise e spans lvs -> dc_rows dc = map (ocoded_row e spans lvs) d)) /\
+  (~ (levels_valid o d /\ NoDup lvs /\ option_ok e spans lvs) -> run = Err EValue).
 Proof. exact CTS_design. Qed.
 
-(* A reading that is FALSE of the faithful model (and of the implementation, by correspondence): a reference
-   that is not a level is accepted under full-rank Treatment coding (the identity matrix never consults it). *)
+(* ... and for a column without a declared order (strings, integers): the sorted distinct values never repeat, so
+   only the option of the encoding can be refused *)
+Theorem C13_call_without_levels_unordered : forall cx data resp f xn col a va enc num d spans nrows,
+  In f ["C"; "T"; "S"]%string -> stateless a = true ->
+  let E := ECtx data (d_extra cx) (d_sqrt cx) true in
+  assoc xn data = Some col -> series_strings (col_value col) = Ok (num, None, d) ->
+  value E a = Ok va -> second_arg_encoding f va = Ok enc ->
+  let lz := LzCall f [LzVar xn; a] [] in
+  let run := do t <- set_type_comp cx data resp (CCall lz); set_data_comp t spans nrows in
+  let e := box_comp_encoding enc in
+  let lvs := sort_levels num (present d) in
+  (option_ok e spans lvs ->
+   exists dc cm,
+     run = Ok dc /\ tc_value (dc_t dc) = PBox num d enc None /\
+     dc_levels dc = lvs /\ dc_contrast dc = Some cm /\ code e spans lvs = Ok cm /\
+     clabels cm = contrast_labels e spans lvs /\
+     dc_labels dc = Some (map (fun s => (lazy_str lz ++ "[" ++ s ++ "]")%string) (contrast_labels e spans lvs)) /\
+     (entries_premise e spans lvs -> dc_rows dc = map (ocoded_row e spans lvs) d)) /\
+  (~ option_ok e spans lvs -> run = Err EValue).
+Proof. exact CTS_design_unordered. Qed.
+
+(* the acceptance condition on levels= is "a permutation of the sorted distinct values" *)
+Theorem C13_levels_accepted_iff_permutation : forall l d,
+  levels_valid (Some l) d /\ NoDup l <-> Permutation l (sort_levels false (present d)).
+Proof. exact levels_accept_perm_str. Qed.
+
+(* A reading that is FALSE of the faithful model (and of the implementation, by correspondence): a reference that
+   is not a level is accepted under full-rank Treatment coding (the identity matrix never consults it). *)
 Theorem C13_refuted_reference_always_checked :
   exists r lv cm, ~ In r lv /\ code (Treatment (Some r)) true lv = Ok cm /\ clabels cm = lv.
 Proof. exact treatment_bad_reference_full_refuted. Qed.
+
+(* levels= with a repeated entry: the box accepts it (only set equality is checked there), the component built
+   from it is refused with ValueError whatever the coding -- end to end through set_type_comp + set_data_comp on a
+   concrete frame (C(x, levels=dup), dup = ["a"; "b"; "a"], x holding b, a) ... *)
+Theorem C13_duplicate_levels_refused :
+  exists cx data lz t num d enc l,
+    set_type_comp cx data false (CCall lz) = Ok t /\
+    tc_kind t = KCategoric /\ tc_value t = PBox num d enc (Some l) /\
+    levels_valid (Some l) d /\ ~ NoDup l /\
+    forall spans nrows, set_data_comp t spans nrows = Err EValue.
+Proof. exact levels_duplicates_component_refused. Qed.
+
+(* ... and in general, for every box component *)
+Theorem C13_duplicate_levels_refused_all : forall t spans nrows num d enc l,
+  tc_kind t = KCategoric -> tc_value t = PBox num d enc (Some l) -> ~ NoDup l ->
+  set_data_comp t spans nrows = Err EValue.
+Proof. exact box_duplicate_levels_refused. Qed.
 
 Print Assumptions C13_levels_sorted.
 Print Assumptions C13_levels_validation.
@@ -92,4 +135,8 @@ Print Assumptions C13_labels.
 Print Assumptions C13_defaults_follow_levels.
 Print Assumptions C13_call_with_levels.
 Print Assumptions C13_call_without_levels.
+Print Assumptions C13_call_without_levels_unordered.
+Print Assumptions C13_levels_accepted_iff_permutation.
 Print Assumptions C13_refuted_reference_always_checked.
+Print Assumptions C13_duplicate_levels_refused.
+Print Assumptions C13_duplicate_levels_refused_all.
